@@ -167,6 +167,8 @@ struct FnItem {
     direct: bool,
     /// a slice type appears in the parameter list
     slice_param: bool,
+    /// two or more `Fd` parameters or two or more `UnixStr` parameters
+    pair_param: bool,
     /// (path-qualified-with-crate-prefix?, preceded-by-dot?, name) of every `name(` in the body
     calls: Vec<(bool, String)>,
 }
@@ -298,15 +300,17 @@ fn scan_items(t: &[Tok], raw_attr_text: &dyn Fn(usize, usize) -> String, pos: &[
                             }
                         }
                     }
-                    let slice_param = match hdr.iter().position(|x| is(x, '(')).filter(|&q| q > k) {
+                    let (slice_param, pair_param) = match hdr.iter().position(|x| is(x, '(')).filter(|&q| q > k) {
                         Some(q) => {
                             let abs = start + q;
                             let close = matching(t, abs);
-                            t[abs..close].iter().any(|x| is(x, '['))
+                            let params = &t[abs..close];
+                            let count = |w: &str| params.iter().filter(|x| id(x) == Some(w)).count();
+                            (params.iter().any(|x| is(x, '[')), count("Fd") >= 2 || count("UnixStr") >= 2)
                         }
-                        None => false,
+                        None => (false, false),
                     };
-                    out.fns.push(FnItem { file_mod: file_mod.to_string(), name: name.to_string(), exported, direct, slice_param, calls });
+                    out.fns.push(FnItem { file_mod: file_mod.to_string(), name: name.to_string(), exported, direct, slice_param, pair_param, calls });
                 }
             }
             Some(("mod", k)) => {
@@ -492,11 +496,11 @@ fn main() {
         }
     }
 
-    let mut listed: Vec<(String, String, bool, bool)> = Vec::new();
+    let mut listed: Vec<(String, String, bool, bool, bool)> = Vec::new();
     for (_, (_, fs)) in &scans {
         for f in &fs.fns {
             if f.exported && marked.contains(&(f.file_mod.clone(), f.name.clone())) {
-                let e = (f.file_mod.clone(), f.name.clone(), f.direct, f.slice_param);
+                let e = (f.file_mod.clone(), f.name.clone(), f.direct, f.slice_param, f.pair_param);
                 if !listed.contains(&e) {
                     listed.push(e);
                 }
@@ -506,10 +510,10 @@ fn main() {
     listed.sort();
     let n_files = scans.len();
     let mut s = String::new();
-    writeln!(s, "/// generated by build.rs from {src}: (module path of the defining file, fn name, body contains `syscall!(` itself, a slice type appears in the parameter list)").unwrap();
-    writeln!(s, "pub const SCANNED: &[(&str, &str, bool, bool)] = &[").unwrap();
-    for (m, n, d, sl) in &listed {
-        writeln!(s, "    ({m:?}, {n:?}, {d}, {sl}),").unwrap();
+    writeln!(s, "/// generated by build.rs from {src}: (module path of the defining file, fn name, body contains `syscall!(` itself, a slice type appears in the parameter list, two or more Fd / two or more UnixStr parameters)").unwrap();
+    writeln!(s, "pub const SCANNED: &[(&str, &str, bool, bool, bool)] = &[").unwrap();
+    for (m, n, d, sl, pr) in &listed {
+        writeln!(s, "    ({m:?}, {n:?}, {d}, {sl}, {pr}),").unwrap();
     }
     writeln!(s, "];").unwrap();
     writeln!(s, "pub const SCANNED_SRC: &str = {src:?};").unwrap();
